@@ -1084,3 +1084,31 @@ package leveldb
 //@   props C08
 //@   safety off
 //@   ensures [C08:returns-only-after-a-successful-attempt] lastok("leveldb.compactionTransactInterface.run") == last("leveldb.compactionTransactInterface.run") && calls("leveldb.compactionTransactInterface.run") > old(calls("leveldb.compactionTransactInterface.run"))
+
+// ---------------------------------------------------------------------------
+// C03: reference counts of the snapshot list. A snapshot element is taken off the list exactly when its last
+// reference is released; acquiring reuses the newest element only for the same sequence number and otherwise
+// appends a new one with one reference, at the current sequence number.
+//@ count list.List.Remove
+//@ count list.List.PushBack
+//@ func (*DB).releaseSnapshot
+//@   props C03
+//@   safety off
+//@   requires se != nil && se.ref >= 1
+//@   ensures [C03:one-reference-given-back] se.ref == old(se.ref) - 1
+//@   ensures [C03:unlisted-exactly-at-zero] calls("list.List.Remove") == old(calls("list.List.Remove")) + (old(se.ref) == 1 ? 1 : 0)
+//@ func (*DB).acquireSnapshot
+//@   props C03
+//@   safety off
+//@   ensures [C03:reuse-adds-one-reference] (result != nil && calls("list.List.PushBack") == old(calls("list.List.PushBack"))) ==> result.ref == old(result.ref) + 1
+//@   ensures [C03:new-element-is-appended-once] result != nil && (calls("list.List.PushBack") == old(calls("list.List.PushBack")) || (calls("list.List.PushBack") == old(calls("list.List.PushBack")) + 1 && result.ref == 1))
+//@   ensures [C03:taken-at-the-current-sequence] result.seq == db.seq
+// What compaction may discard is bounded by the oldest live snapshot: the front of the list while there is one,
+// else the current sequence number.
+//@ count list.List.Front
+//@ count list.List.Back
+//@ func (*DB).minSeq
+//@   props C03
+//@   safety off
+//@   ensures [C03:oldest-snapshot-is-the-front] calls("list.List.Front") == old(calls("list.List.Front")) + 1 && calls("list.List.Back") == old(calls("list.List.Back"))
+//@   guarantees [C03:no-snapshot-means-current] (e == nil) ==> result == db.seq
